@@ -56,13 +56,17 @@ def replay(recipe):
 def variants(recipe, case):
     jobs = [(dict(kind='sim', recipe=recipe, mask=MASK), 1),
             (dict(kind='sim', recipe=recipe, mask=MASK, warmup=2), 7919),
-            (dict(kind='sim', recipe=recipe, mask=MASK, patch_uuid=12345), 424242)]
+            (dict(kind='sim', recipe=recipe, mask=MASK, patch_uuid=12345), 424242),
+            # the process-global container counter stands just below a power of ten (ids are strings)
+            (dict(kind='sim', recipe=recipe, mask=MASK, counter_start=[8, 97, 996, 9995][len(recipe['pipes']) % 4]), 5)]
     hits = []
     for job, hs in jobs:
         r = sub(job, hs)
         if r['obs'] != case['obs_raw']:
             what = 'a fresh process' + (' after other simulations' if job.get('warmup') else '') + \
-                   (' with other uuid values' if job.get('patch_uuid') else '') + f' (PYTHONHASHSEED={hs})'
+                   (' with other uuid values' if job.get('patch_uuid') else '') + \
+                   (f' with the container counter at {job["counter_start"]}' if job.get('counter_start') else '') + \
+                   f' (PYTHONHASHSEED={hs})'
             k = next((i for i, (a, b) in enumerate(zip(r['obs'], case['obs_raw'])) if a != b), min(len(r['obs']), len(case['obs_raw'])))
             hits.append(dict(desc=f'run differs in {what}: first difference at position {k} of the canonical event log',
                              signature='nondeterminism', recipe=recipe, gen=recipe.get('gen')))
@@ -77,7 +81,8 @@ def run(ctx):
     n = ctx.budget(30, 400)
     for i in range(n):
         rng = ctx.case_rng('G-det', i)
-        rec = S.gen_sim(rng, gen='G-det') if i % 3 else S.gen_preempt(rng, gen='G-det')
+        rec = [S.gen_preempt(rng, gen='G-det'), S.gen_sim(rng, gen='G-det'),
+               S.gen_saturate(rng, rng.choice(['overbook', 'overbook', 'priority-pool', 'priority']), gen='G-det')][i % 3]
         case, run_ = S.drive(rec, MASK)
         case['obs_raw'] = list(case['obs'])
         SP.stats_of(run_, st)
@@ -91,7 +96,7 @@ def run(ctx):
     with ThreadPoolExecutor(8) as ex:
         for h in ex.map(lambda rc: variants(*rc), recipes):
             hits += h
-            st['process_variants'] += 3
+            st['process_variants'] += 4
     # the generated workload depends only on workload parameters, tick rate and seed
     ngen = ctx.budget(12, 150)
 
@@ -124,8 +129,8 @@ def run(ctx):
             st['generated_pipelines'] += na
     return dict(cases=cases, hits=hits, dist=dict(st), distinct_nontrivial=len({tuple(c['inp']) for c in cases}),
                 rule='G-det: whole runs (all shipped schedulers incl. contended priority runs) executed in this process twice and '
-                     'in three fresh interpreter processes (different PYTHONHASHSEED; after unrelated simulations; uuid4 '
-                     'patched to another stream): every canonical event log must equal the single trace the model computes; '
+                     'in four fresh interpreter processes (different PYTHONHASHSEED; after unrelated simulations; uuid4 '
+                     'patched to another stream; container counter preset just below a power of ten): every canonical event log must equal the single trace the model computes; '
                      'generated workloads under different scheduler/executor settings must be identical, under different '
                      'seeds different. non-trivial = distinct run configurations',
                 samples=[{k: recipes[0][0][k] for k in ('algo', 'tps', 'npools', 'cpu', 'ram', 'duration')}])
